@@ -128,6 +128,14 @@ pub fn check_merge_result(
 ) -> Result<MergeStats, Fail> {
     let mut stats = MergeStats { paths_compared: 0, conflicts: 0, content_merges: 0, clashes: 0, ambiguous: 0 };
     let mut any_conflict = false;
+    // MergedTree::merge first cancels equal (side, base) trees, which fixes the
+    // ORDER of the remaining terms; a content merge of more than three terms
+    // can depend on that order (the diff is anchored at the first base), so
+    // the reference merges the terms in the same order (Merge::simplify is
+    // monitored by C01; equal models are equal trees).
+    let simplified_models: Vec<TreeModel> =
+        Merge::from_vec(models.to_vec()).simplify().into_iter().collect();
+    let models = &simplified_models[..];
     for path in all_paths(models) {
         if !clean_ancestry(models, &path) {
             stats.clashes += 1;
